@@ -409,6 +409,19 @@ class Repo:
             except (ZeroDivisionError, OverflowError, TypeError):
                 return None
             return None
+        if isinstance(node, ast.Compare) and len(node.ops) == 1 and \
+                isinstance(node.ops[0], (ast.Eq, ast.NotEq)):
+            a = self.const(module, node.left, _depth + 1)
+            b = self.const(module, node.comparators[0], _depth + 1)
+            if a is None or b is None:
+                return None
+            return (a == b) if isinstance(node.ops[0], ast.Eq) else (a != b)
+        if isinstance(node, ast.IfExp):
+            t = self.const(module, node.test, _depth + 1)
+            if isinstance(t, bool):
+                return self.const(module, node.body if t else node.orelse,
+                                  _depth + 1)
+            return None
         if isinstance(node, ast.JoinedStr):
             parts = []
             for v in node.values:
